@@ -21,6 +21,9 @@ const SND: &str = "snd = #[(@'int), 'int, 'int, 'int] { | =[to, base, 0, s] => 0
 const FWD: &str = "fwd = #[(@'int), 'int] { | =[to, 0] => 0 | =[to, k] => { !'int to, [&to, [k, 1] __integer_subtract__] ^ } }";
 const SND2: &str = "snd2 = #[(@'int), (@'int), 'int, 'int] { | =[a, b, base, 0] => 0 | =[a, b, base, k] => { base a, [base, 50] __integer_add__ b, [&a, &b, [base, 1] __integer_add__, [k, 1] __integer_subtract__] ^ } }";
 const SRV: &str = "srv = #'int { | =0 => 0 | =k => { !#[(@'int), 'int] =[from, m], [m, 100] __integer_add__ from, [k, 1] __integer_subtract__ ^ } }";
+const COL2: &str = "col2 = #['int, 'int, 'int] { | =[0, acc, s] => acc | =[n, acc, s] => [[n, 1] __integer_subtract__, [[acc, 100000] __integer_multiply__, ! [#'int { =m, [m, 5000] __integer_compare__ =1 }, #'int { =m, w = [s, 0] spin, [m, 3] __integer_modulo__ { | =0 => [] | Ok } }]] __integer_add__, s] ^ }";
+const FA: &str = "fa = #[(@-> 'int), 'int] { =[p, s], w = [s, 0] spin, r = !p, [r, 1] __integer_add__ }";
+const VIC: &str = "vic = #['int, 'int] { =[n, s], g = !'int, w = [s, 0] spin, [n, g] __integer_divide__ }";
 const CLI: &str = "cli = #[(@[(@'int), 'int]), 'int, 'int, 'int] { | =[s, base, 0, acc] => acc | =[s, base, k, acc] => { [&., base] s, [&s, [base, 1] __integer_add__, [k, 1] __integer_subtract__, [[acc, 100000] __integer_multiply__, !'int] __integer_add__] ^ } }";
 
 fn colf(spin: u32) -> String {
@@ -82,7 +85,7 @@ impl Property for C04 {
         c
     }
     fn generate(&self, rng: &mut Rng, _tier: Tier) -> Scenario {
-        let mut defs: Vec<String> = vec![SPIN.into(), COL.into(), COLT.into(), SND.into(), FWD.into(), SND2.into(), SRV.into(), CLI.into()];
+        let mut defs: Vec<String> = vec![SPIN.into(), COL.into(), COLT.into(), SND.into(), FWD.into(), SND2.into(), SRV.into(), CLI.into(), COL2.into(), FA.into(), VIC.into()];
         let fspin = *rng.pick(&[3u32, 12, 30]);
         defs.push(colf(fspin));
         let mut body: Vec<String> = Vec::new();
@@ -91,8 +94,9 @@ impl Property for C04 {
         let mut h = crate::rng::Fnv::default();
         let family;
         let mut timing = false;
-        let kind = rng.below(10);
+        let kind = rng.below(13);
         h.u64(kind);
+        let mut expect_error: Option<String> = None;
         let mut results: Vec<String> = Vec::new();
         match kind {
             0..=4 => {
@@ -218,6 +222,55 @@ impl Property for C04 {
                 results.push("r".into());
                 expect.push(e);
             }
+            10..=11 => {
+                // two filter sources; the lower-priority filter is long and rejects some messages
+                family = "two-filter-fan-in";
+                let na = 1 + rng.usize(4);
+                let nb = 2 + rng.usize(6);
+                let fs = *rng.pick(&[5u32, 20, 60, 150]);
+                h.u64(na as u64 * 16 + nb as u64);
+                h.u64(fs as u64);
+                let big: Vec<u64> = (0..na as u64).map(|q| 6001 + q).collect();
+                let small_all: Vec<u64> = (0..nb as u64).map(|q| 101 + q).collect();
+                let small: Vec<u64> = small_all.iter().copied().filter(|m| m % 3 != 0).collect();
+                let total = big.len() + small.len();
+                body.push(format!("c = [{total}, 0, {fs}] @col2"));
+                let (sa, sb) = (*rng.pick(&[0u32, 3, 15]), *rng.pick(&[0u32, 3, 15]));
+                if rng.chance(1, 2) {
+                    body.push(format!("sb = [&c, 101, {nb}, {sb}] @snd"));
+                    body.push(format!("sa = [&c, 6001, {na}, {sa}] @snd"));
+                } else {
+                    body.push(format!("sa = [&c, 6001, {na}, {sa}] @snd"));
+                    body.push(format!("sb = [&c, 101, {nb}, {sb}] @snd"));
+                }
+                body.push("r = !c".into());
+                let mut e = BTreeMap::new();
+                e.insert("big".to_string(), big);
+                e.insert("small".to_string(), small);
+                results.push("r".into());
+                expect.push(e);
+            }
+            12 => {
+                // a failure travelling down a chain of awaiters: every link must be woken
+                family = "failure-chain";
+                let len = 1 + rng.usize(3);
+                h.u64(len as u64);
+                body.push(format!("t = [10, {}] @vic", *rng.pick(&[0u32, 10, 60])));
+                let mut prev = "t".to_string();
+                for i in 0..len {
+                    let s = *rng.pick(&[0u32, 0, 8, 40, 120]);
+                    h.u64(s as u64);
+                    body.push(format!("a{i} = [&{prev}, {s}] @fa"));
+                    prev = format!("a{i}");
+                }
+                if rng.chance(1, 2) {
+                    body.push(format!("w = [{}, 0] spin", *rng.pick(&[5u32, 50, 150])));
+                }
+                body.push("0 t".into());
+                body.push(format!("r = !{prev}"));
+                results.push("r".into());
+                expect_error = Some("Division by zero".to_string());
+            }
             _ => {
                 family = "request-reply";
                 let ncli = 1 + rng.usize(3);
@@ -267,7 +320,10 @@ impl Property for C04 {
             timing,
             io: false,
             fixed_faults: Default::default(),
-            expect: serde_json::to_value(&expect).unwrap(),
+            expect: match &expect_error {
+                Some(e) => serde_json::json!({ "error": e }),
+                None => serde_json::to_value(&expect).unwrap(),
+            },
             shape: h.0,
             est_len: 100,
         }
@@ -277,6 +333,20 @@ impl Property for C04 {
     }
     fn judge(&self, scn: &Scenario, _refdata: Option<&RefData>, r: &RunResult) -> Vec<Violation> {
         let mut v = Vec::new();
+        if let Some(err) = scn.expect.get("error").and_then(|e| e.as_str()) {
+            // failure chain: the client (last link's awaiter) must be woken with the victim's error
+            match r.outs.last() {
+                Some(Out::RuntimeError(e)) if e.contains(err) => {}
+                other => v.push(Violation::new("C04", "lost-wakeup", "failure-not-propagated-to-client", format!("client got {:?}, expected the victim's error ({err})", other), r.steps)),
+            }
+            for (path, res) in &r.procs {
+                if path != "R0" && path.starts_with("R0/") && !res.contains(err) && res != "0" {
+                    v.push(Violation::new("C04", "lost-wakeup", "chain-link-not-failed", format!("process {path} ended with {res}; every link of the await chain must fail with the victim's error"), r.steps));
+                    break;
+                }
+            }
+            return v;
+        }
         let expect: Vec<BTreeMap<String, Vec<u64>>> = serde_json::from_value(scn.expect.clone()).unwrap_or_default();
         let out = match r.outs.last() {
             Some(Out::Value(s)) => s.clone(),
